@@ -96,7 +96,7 @@ class Roles:
             full = []
             for f in self.dedicated_impls(sp['trait'], 'reset'):
                 seen, _ = cg.reachable([f.path])
-                full += [q for q in seen if facts.fns[q].impl_self_adt == work and len(facts.fns[q].inputs) >= 4]
+                full += [q for q in seen if facts.fns[q].impl_self_adt == work and len(facts.fns[q].inputs) >= 4 and facts.fns[q].inputs[0].startswith('&mut ')]
             self.unique('%s.reset' % side, full, 'work method with the configuration parameters reached from %s::reset' % sp['trait'])
             # getters used by the iterator (decoder: original_count())
             # store type: the crate ADT among the field types
